@@ -169,6 +169,7 @@ class parse_lp_packet_v2(Contract):
         inst = LazyParsed(cx.run, lp.LpPacketValue, wire, {})
         inst.cache['frag_index'] = OptInt(True, 0)
         inst.cache['frag_count'] = OptInt(True, 0)
+        cx.run.ghost['lp.parsed'] = inst          # ghost: the envelope as decoded, for the postconditions of its callers
         return inst
 
 
@@ -209,7 +210,7 @@ class v2_receive(Contract):
     props = ('C06', 'C10')
     doc = ('appv2 _receive: whatever bytes a transport delivers, reception returns normally (no exception escapes) and the '
            'packet is dropped or dispatched; an envelope with a Nack header leads to exactly one _on_nack(name of the '
-           'fragment, that reason) and nothing else; an envelope without Nack dispatches the fragment by its own type exactly '
+           'fragment, precisely the reason code of that header - NONE when it has none) and nothing else; an envelope without Nack dispatches the fragment by its own type exactly '
            'as the bare packet would be')
     raises = {}
 
@@ -228,6 +229,21 @@ class v2_receive(Contract):
             if what == '_on_nack':
                 from pyvc.values import OptInt
                 out['nack_reason_is_an_integer'] = is_symint(a[1]) or isinstance(a[1], (int, OptInt))
+                # precisely the reason code carried by the envelope's Nack header (NONE = 0 when the header has no reason)
+                inst = cx.run.ghost.get('lp.parsed')
+                nk = inst.cache.get('nack') if inst is not None else None
+                hdr = nk.cache.get('nack_reason') if isinstance(nk, LazyParsed) else None
+                if isinstance(hdr, OptInt):
+                    r = a[1]
+                    if r is hdr:
+                        out['nack_reason_is_precisely_the_header_value'] = Not(hdr.isnone)
+                    elif isinstance(r, OptInt):
+                        out['nack_reason_is_precisely_the_header_value'] = And(Not(hdr.isnone), Not(r.isnone), Eq(zint(r.val), zint(hdr.val)))
+                    else:
+                        out['nack_reason_is_precisely_the_header_value'] = Or(And(hdr.isnone, Eq(zint(r), 0)),
+                                                                               And(Not(hdr.isnone), Eq(zint(r), zint(hdr.val))))
+                else:
+                    out['nack_reason_is_precisely_the_header_value'] = False
         return out
 
 
@@ -252,8 +268,24 @@ class parse_lp_packet(Contract):
     def post(c, cx, result, wire, with_tl):
         from pyvc.values import OptInt
         reason, frag = result
-        return {'reason_is_optional_int': reason is None or isinstance(reason, (OptInt, int)) or is_symint(reason),
-                'fragment_is_view_of_wire': frag is None or (isinstance(frag, View) and Eq(frag.cell, wire.cell) is True)}
+        out = {'reason_is_optional_int': reason is None or isinstance(reason, (OptInt, int)) or is_symint(reason),
+               'fragment_is_view_of_wire': frag is None or (isinstance(frag, View) and Eq(frag.cell, wire.cell) is True)}
+        # the reason is precisely what the envelope carries: None without a Nack header, the header's code, 0 if it has none
+        inst = cx.run.ghost.get('lp.parsed')
+        if inst is not None and 'nack' in inst.cache:
+            nk = inst.cache['nack']
+            if not isinstance(nk, LazyParsed):
+                out['no_nack_header_means_no_reason'] = reason is None
+            else:
+                hdr = nk.cache.get('nack_reason')
+                if reason is hdr and isinstance(hdr, OptInt):
+                    out['reason_is_precisely_the_header_value'] = Not(hdr.isnone)
+                elif isinstance(hdr, OptInt) and reason is not None and not isinstance(reason, OptInt):
+                    out['reason_is_precisely_the_header_value'] = Or(And(hdr.isnone, Eq(zint(reason), 0)),
+                                                                      And(Not(hdr.isnone), Eq(zint(reason), zint(hdr.val))))
+                else:
+                    out['reason_is_precisely_the_header_value'] = False
+        return out
 
     def result(c, cx, wire, with_tl):
         from contracts.parse_summary import sub_view
